@@ -18,6 +18,8 @@ RULE = (
     "boundary; f(lon+2pi*k) names an acceptable cell of (lon); output shape = request shape + colour axes. The ecliptic variant is checked "
     "for row, periodicity, shape and range only (its column layout is not stated). Non-trivial: a (variant, shape, colour) "
     "combination with >= 100 points; distinct by that combination."
+    ' Also: samplers of the other layouts built (and one used) between building and using the sampler under test; Fortran-contiguous, s'
+    'trided and double-flipped maps; the same sampler called from four threads.'
 )
 ASSUMPTIONS = ["astropy SkyCoord is the oracle for the Galactic/ecliptic rotations", "float64 evaluation of the documented layout with an either-adjacent-cell tolerance of 1e-9 cell (1e-7 after a rotation)"]
 VARIANTS = ["plate_carree_sampler", "plate_carree_zeroright_sampler", "plate_carree_planet_sampler", "plate_carree_planet_zeroleft_sampler", "plate_carree_galactic_sampler", "plate_carree_ecliptic_sampler"]
